@@ -40,6 +40,7 @@ class VariantMay:
         for i, l in enumerate(f.locals):
             if l.get("ty") == adt:
                 self.tracked.add("_%d" % i)
+        self.bools = {i for i, l in enumerate(f.locals) if l.get("ty") == "bool"}
         self.state_in = {}
         self.run()
 
@@ -65,6 +66,12 @@ class VariantMay:
         if s in self.tracked:
             st[s] = self.all
 
+    def _forget_flags(self, st, place_s):
+        for k in list(st):
+            if isinstance(k, tuple) and k[0] == "flag" and st[k]:
+                st[k] = {c: {p_: (self.all if p_ == place_s else v) for p_, v in m.items()}
+                         for c, m in st[k].items()}
+
     def _transfer_stmt(self, st, stmt):
         if stmt["k"] == "setdiscr":
             s = self._cp(stmt["place"])
@@ -74,9 +81,27 @@ class VariantMay:
             return
         if stmt["k"] != "assign":
             return
+        pl = stmt["place"]
+        if not pl["proj"] and pl["local"] in self.bools:
+            # flag correlation: `flag = const` remembers what the tracked places were then
+            rv0 = stmt["rv"]
+            c = None
+            if rv0["k"] == "use" and rv0["op"].get("k") == "const":
+                c = rv0["op"]["const"].get("bool")
+            key = ("flag", pl["local"])
+            if isinstance(c, bool):
+                fl = dict(st.get(key) or {}) if st.get(key, {}) is not None else None
+                if fl is not None:
+                    fl[c] = {p_: st.get(p_, self.all) for p_ in self.fields}
+                st[key] = fl
+            else:
+                st[key] = None
+            return
         s = self._cp(stmt["place"])
         rv = stmt["rv"]
         if s in self.tracked:
+            if s in self.fields:
+                self._forget_flags(st, s)
             if rv["k"] == "aggregate" and rv.get("adt") == self.adt:
                 st[s] = frozenset([rv["variant"]])
             elif rv["k"] == "use":
@@ -91,6 +116,13 @@ class VariantMay:
             pass
 
     def _transfer_call(self, st, t):
+        before = {p_: st.get(p_) for p_ in self.fields}
+        self._transfer_call_inner(st, t)
+        for p_ in self.fields:
+            if st.get(p_) != before[p_]:
+                self._forget_flags(st, p_)
+
+    def _transfer_call_inner(self, st, t):
         name = t.get("callee") or ""
         args = t.get("args", [])
         dest = t.get("dest", {}).get("s")
@@ -143,6 +175,40 @@ class VariantMay:
                 return self._cp(d[3]["place"])
         return None
 
+    def _flag_of(self, t):
+        p = op_place(t["discr"])
+        if p is None or p["proj"]:
+            return None
+        l = p["local"]
+        for _ in range(3):
+            if l in self.bools and any(d[0] == "stmt" and d[3]["k"] == "use"
+                                       and d[3]["op"].get("k") == "const"
+                                       for d in self.f.defs().get(l, [])):
+                return l
+            ds = self.f.defs().get(l, [])
+            if len(ds) == 1 and ds[0][0] == "stmt" and ds[0][3]["k"] == "use":
+                q = op_place(ds[0][3]["op"])
+                if q is not None and not q["proj"]:
+                    l = q["local"]
+                    continue
+            break
+        return None
+
+    def _flag_edge(self, st, fact, tb, succs):
+        if self.f.is_unreachable_block(tb):
+            return
+        if fact is None:
+            # no path seen so far assigned this constant to the flag: the edge is not (yet)
+            # feasible; it is revisited when a path that does arrives at the switch
+            return
+        s2 = dict(st)
+        for p_, allowed in fact.items():
+            keep = s2.get(p_, self.all) & allowed
+            if not keep:
+                return              # this flag value cannot occur with the current sets
+            s2[p_] = frozenset(keep)
+        succs.append((tb, s2))
+
     def run(self):
         f = self.f
         init = {s: frozenset(self.assume.get(s, self.all)) for s in self.tracked}
@@ -185,8 +251,21 @@ class VariantMay:
                             s2[ps] = frozenset(keep)
                             succs.append((t["otherwise"], s2))
                 else:
-                    for sb in f.succ(b):
-                        succs.append((sb, st))
+                    fl = self._flag_of(t)
+                    facts = st.get(("flag", fl)) if fl is not None else None
+                    if facts:
+                        seen_t = set()
+                        for val, tb in t["targets"]:
+                            seen_t.add(bool(val))
+                            self._flag_edge(st, facts.get(bool(val)), tb, succs)
+                        rest = [c for c in (True, False) if c not in seen_t]
+                        if len(rest) == 1:
+                            self._flag_edge(st, facts.get(rest[0]), t["otherwise"], succs)
+                        else:
+                            succs.append((t["otherwise"], st))
+                    else:
+                        for sb in f.succ(b):
+                            succs.append((sb, st))
             else:
                 for sb in f.succ(b):
                     succs.append((sb, st))
@@ -201,6 +280,24 @@ class VariantMay:
                         u = old.get(k, frozenset()) | s2.get(k, frozenset())
                         if u != old.get(k):
                             old[k] = u
+                            changed = True
+                    for k in set(old) | set(s2):
+                        if not (isinstance(k, tuple) and k[0] == "flag"):
+                            continue
+                        a, b2 = old.get(k, {}), s2.get(k, {})
+                        if a is None or b2 is None:
+                            m = None
+                        else:
+                            m = {}
+                            for c in set(a) | set(b2):
+                                x, y = a.get(c), b2.get(c)
+                                if x is None or y is None:
+                                    m[c] = dict(x or y)
+                                else:
+                                    m[c] = {p_: frozenset(x.get(p_, self.all)) | frozenset(y.get(p_, self.all))
+                                            for p_ in set(x) | set(y)}
+                        if m != old.get(k, {}):
+                            old[k] = m
                             changed = True
                     if changed:
                         work.append(sb)
